@@ -187,7 +187,8 @@ class Ctx:
             spec_dirs = [spec_dirs]
         d = self._tlc_dir(spec_dirs, extra_files)
         workers = workers or min(NCPU, 8)
-        argv = ['java', '-XX:+UseParallelGC', '-Xss64m']
+        # TLC unpacks its standard modules into java.io.tmpdir (/tmp/tlc-<n>) and leaves them there: keep them in the scratch
+        argv = ['java', '-XX:+UseParallelGC', '-Xss64m', '-Djava.io.tmpdir=' + self.sub('tmp')]
         if heap:
             argv.append('-Xmx' + heap)
         if dfs:
